@@ -153,6 +153,15 @@ void h_setters(void){
   { size_t a_k = nondet_size_t();
     if (a_which <= 1 || a_which == 6) { __CPROVER_assume(a_k < a_np * a_nd); __CPROVER_assert(TSG_SAME(st.particle_positions[a_k], arg[a_k]) && st.positions_initialized, "F20b setParticlePositions stores all num_particles x num_dimensions coordinates"); }
     else if (a_which <= 3 || a_which == 7) { __CPROVER_assume(a_k < (a_np + 1) * a_nd); __CPROVER_assert(TSG_SAME(st.best_particle_positions[a_k], arg[a_k]) && st.best_positions_initialized, "F20b setBestParticlePositions stores all (num_particles + 1) x num_dimensions coordinates, the swarm-best strip included"); } }
+  /* frame: an edit of one part of the state leaves the other parts as they were (clearCache() drops cached values only, clearBestParticles() the best-known points only) */
+  { size_t a_q = nondet_size_t(); __CPROVER_assume(a_q < (a_np + 1) * a_nd);
+    bool pos_edit = (a_which <= 1 || a_which == 6), best_edit = (a_which == 2 || a_which == 3 || a_which == 7 || a_which == 4);
+    if (a_q < a_np * a_nd) {
+      __CPROVER_assert(TSG_SAME(st.particle_velocities[a_q], old.particle_velocities[a_q]) && st.velocities_initialized == old.velocities_initialized, "F20b no position setter / clearer touches the velocities");
+      if (!pos_edit) __CPROVER_assert(TSG_SAME(st.particle_positions[a_q], old.particle_positions[a_q]) && st.positions_initialized == old.positions_initialized, "F20b only setParticlePositions changes the particle positions");
+    }
+    if (!best_edit) __CPROVER_assert(TSG_SAME(st.best_particle_positions[a_q], old.best_particle_positions[a_q]) && st.best_positions_initialized == old.best_positions_initialized, "F20b the best-known points survive every edit but setBestParticlePositions / clearBestParticles (clearCache() drops cached values only)");
+  }
   /* cache coherence: a cached value that is still trusted (cache_initialized and, for best slots, inside)
    * must belong to the position that is stored now */
   if (st.cache_initialized) {
